@@ -1,14 +1,14 @@
 #!/bin/bash
 # usage: seed_eval.sh <PID> <A|B> <check IDs to run...>
 pid=$1; x=$2; shift 2
-src=/tmp/seeded/$pid/$x
+src=${SEED_SRC:-/tmp/seeded}/$pid/$x
 echo "### $pid$x"
 v=$(/verif/verify_seed.sh $src 2>&1 | tail -1); echo "verify: $v"
 res=$(/verif/mt.sh $src/patch.diff quick "$@" 2>/dev/null)
 echo "$res" | grep -E "^== |kind=" | cut -c1-330 | head -12
 case "$v" in *"demo_without_change_exit=0 demo_with_change_exit=1 suite_ok"*) ok=1;; *) ok=0;; esac
 if [ $ok = 1 ]; then
-  dst=/verif/seeded/$pid$x; mkdir -p $dst
+  dst=/verif/seeded/${SEED_PREFIX:-}$pid$x; mkdir -p $dst
   cp $src/patch.diff $dst/; cp $src/demo_test.go $dst/ 2>/dev/null
   python3 - "$src/meta.json" "$dst/meta.json" "$v" "$res" "$*" <<'PY'
 import json,sys,re
